@@ -16,6 +16,7 @@ package proto
 
 import (
 	"bytes"
+	"fmt"
 	"strconv"
 )
 
@@ -46,6 +47,9 @@ func newArrayWithParser(parser *Parser) (*Array, error) {
 	}
 	if arraySize < 0 {
 		return NewArray(), nil
+	}
+	if MaxArraySize < arraySize {
+		return nil, fmt.Errorf(errorTooLargeArray, arraySize, MaxArraySize)
 	}
 
 	// Gets all array messages
